@@ -35,12 +35,12 @@ def run(ctx):
     fn = A.fn("wtransport_proto::capsule::close_wt_session::CloseWebTransportSession::with_capsule")
     LEN = r"<impl \[T\]>::len\(Capsule::payload\(capsule\)\)"
     HI = SPEC["capsule"]["code_bytes"] + SPEC["capsule"]["max_reason_len"]
-    IDX = r"<impl Index<I> for \[T\]>::index\(Capsule::payload\(capsule\),%s\)"
-    CODE = r"<impl u32>::from_be_bytes\(Result::expect\(<T as TryInto<U>>::try_into\(%s\),[^()]*\)\)" % (IDX % r"RangeTo\(4\)")
-    UTF = r"from_utf8\(%s\)" % (IDX % r"RangeFrom\(4\)")
+    IDX = r"Capsule::payload\(capsule\)\[%s\]"
+    CODE = r"<impl u32>::from_be_bytes\(Result::expect\(<T as TryInto<U>>::try_into\(%s\),[^()]*\)\)" % (IDX % r"\.\.4")
+    UTF = r"from_utf8\(%s\)" % (IDX % r"4\.\.")
     rows = [
-        {"name": "too short->error", "atoms": [r"^%s < 4$" % LEN], "not_events": [r"Index"], "leaf": r"^return Result::Err\(ErrorCode::\w+\)$"},
-        {"name": "too long->error", "atoms": [r"^%s >= 4$" % LEN, r"^%s > %d$" % (LEN, HI)], "not_events": [r"Index"], "leaf": r"^return Result::Err\(ErrorCode::\w+\)$"},
+        {"name": "too short->error", "atoms": [r"^%s < 4$" % LEN], "not_events": [r"payload\(capsule\)\["], "leaf": r"^return Result::Err\(ErrorCode::\w+\)$"},
+        {"name": "too long->error", "atoms": [r"^%s >= 4$" % LEN, r"^%s > %d$" % (LEN, HI)], "not_events": [r"payload\(capsule\)\["], "leaf": r"^return Result::Err\(ErrorCode::\w+\)$"},
         {"name": "reason not UTF-8->error", "atoms": [r"^%s >= 4$" % LEN, r"^%s <= %d$" % (LEN, HI), r"^%s fails$" % UTF], "leaf": r"^return Result::Err\(ErrorCode::\w+\)$"},
         {"name": "ok->(be32(payload[..4]), payload[4..])", "atoms": [r"^%s >= 4$" % LEN, r"^%s <= %d$" % (LEN, HI), r"^%s ok$" % UTF],
          "leaf": r"^return Result::Ok\(CloseWebTransportSession\(%s,<T as ToString>::to_string\(ok\(%s\)\)\)\)$" % (CODE, UTF)},
